@@ -44,7 +44,7 @@ ASSUMPTIONS = [
 
 TABLE = "monkeytype_call_traces"
 MODULES = ["m", "M", "m2"]
-QUALNAMES = ["my_func", "myXfunc", "MY_FUNC", "Foo.bar", "foo", "a%b", "aXb", "é", "É"]
+QUALNAMES = ["my_func", "myXfunc", "MY_FUNC", "Foo.bar", "foo", "a%b", "aXb", "é", "É", "a*b", "a?b", "my[_X]func"]
 LIMITS = [0, 1, 2, 1000]
 
 
@@ -94,11 +94,12 @@ BATCHES: List[List[Tuple[str, str, str]]] = [
     [("m", "é", "int"), ("m", "x", "bad"), ("m", "É", "str")],
     [("m", "é", "int"), ("m", "É", "int"), ("m", "x", "bad")],
     [],
+    [("m", "a*b", "int"), ("m", "a?b", "int"), ("m", "my[_X]func", "int")],
 ]
 
 
 def prefixes() -> List[Optional[str]]:
-    ps = {"", "_", "%", "my%", "f", "F", "a_b"}
+    ps = {"", "_", "%", "my%", "f", "F", "a_b", "*", "?", "a?", "my[", "[", "my[_X]", "a[*?]b"}
     for q in QUALNAMES:
         for i in range(1, len(q) + 1):
             ps.add(q[:i])
